@@ -16,7 +16,8 @@ RULE = ("initial programs = empty / wrong / slack / hand-layout snapshots over t
         "x all 16 approved subsets F; history of 2 (thorough 3) identical sessions with F through Example.run_inline; the "
         "second transition must be a self-loop on the file state; states = distinct file texts reached, transitions = sessions; "
         "a deterministic slice is replayed as real pytest double sessions (second run: exit status 0, no create/fix/trim "
-        "section, no diff panel, file unchanged)")
+        "section, no diff panel, file unchanged)"
+        "; plus double sessions over 11 import headers x 5 site lists, sites modified after the comparison, a bytecode-cache history")
 ASSUMPTIONS = ["an internally noted `update` whose diff is empty is allowed in the second run as long as no file changes "
                "and no create/fix/trim is reported (the anchored 'empty diffs are hidden' mechanism)"]
 BATCH = 40
